@@ -96,7 +96,7 @@ def main(argv):
             R.run_spaces(prop, spaces, ledger, pool, triage=a.triage, res=res)
             if hasattr(mod, "custom") and not a.only:
                 mod.custom(a.tier, a.seed, pool, ledger, res, a.triage)
-            flaky = [] if a.triage else R.confirm_violations(res, pool)
+            flaky = [] if a.triage else R.confirm_violations(res, pool, spaces)
     except store.TableError as e:
         print("FRAMEWORK-ERROR %s" % e, file=sys.stderr)
         return 2
